@@ -429,16 +429,20 @@ def gen_buffer_case(seed, depth=10):
         for _ in range(rng.randint(1, 3)):
             ops += [['ingest', rng.randint(1, hot_rate), rng.randint(1, 6)], ['settle'], ['h2c'], ['settle']]
     for _ in range(n):
-        k = rng.choices(['ingest', 'h2c', 'c2h', 'advance', 'settle', 'process', 'finish', 'overrate', 'check'],
-                        [22, 18, 16, 14, 12, 6, 5, 4, 3])[0]
+        k = rng.choices(['ingest', 'h2c', 'c2h', 'advance', 'settle', 'process', 'finish', 'overrate', 'check', 'probe'],
+                        [22, 18, 16, 14, 12, 6, 5, 4, 3, 6])[0]
         if k == 'ingest':
-            ops.append(['ingest', rng.randint(1, hot_rate), rng.randint(1, 6)])
+            # now and then an observation that produces no data (legal; it still moves between tiers)
+            ops.append(['ingest', 0 if rng.random() < 0.08 else rng.randint(1, hot_rate), rng.randint(1, 6)])
         elif k == 'overrate':
             ops.append(['overrate', hot_rate + rng.randint(1, 3), rng.randint(1, 3)])
         elif k == 'advance':
             ops.append(['advance', rng.randint(1, 5)])
         elif k == 'check':
             ops.append(['check', rng.randint(1, hot_rate), rng.randint(1, 12)])
+        elif k == 'probe':
+            # admission query for a volume chosen at run time right at the edge of what still fits
+            ops.append(['probe', rng.choice([-2, -1, 0, 0, 1, 1, 2, 3])])
         else:
             ops.append([k])
     return {'kind': 'buffer_ops', 'cfg': {'machines': {'m0': {'flops': 1, 'compute_bandwidth': 1}},
@@ -486,6 +490,8 @@ class BufferMachine(object):
                                    started=False, left=None, prev=None, size=getattr(self, '_next_move_size', None))
 
     def on_resume(self, rec):
+        if rec in self.moves:
+            self.moves[rec]['n'] = self.moves[rec].get('n', 0) + 1
         if rec in self.streams:
             s = self.streams[rec]
             o = self.objs[s['obs']]
@@ -586,8 +592,9 @@ class BufferMachine(object):
         if not any(v['prop'] != 'C19' for v in self.res.violations):
             self.in_op = False
             try:
-                self.wait_streams()
-                self.wait_moves()
+                with contextlib.redirect_stdout(out):
+                    self.wait_streams()
+                    self.wait_moves()
                 self.quiescent_tiers('end')
             except RuntimeError:
                 pass
@@ -669,20 +676,35 @@ class BufferMachine(object):
                 if k == 'overrate':
                     res.viol('C07', 'overrate_ingest_accepted', 'rate %s > max %s accepted' % (rate, self.hrate))
                 res.probes['ingest'] += 1
-            elif k == 'check':
-                rate, dur = op[1], op[2]
+            elif k in ('check', 'probe'):
+                # space owed: to streams in flight, and to cold->hot moves in flight (exact remainder / whole size)
+                pend = sum(self.objs[s_['obs']].ingest_data_rate * (self.objs[s_['obs']].duration - s_['n'])
+                           for r_, s_ in self.streams.items() if not r_.proc.triggered)
+                c2h = [m_ for r_, m_ in self.moves.items() if not r_.proc.triggered and m_['dir'] == 'c2h' and m_.get('size')]
+                owed_exact = sum(max(0, m_['size'] - self.rate * m_.get('n', 0)) for m_ in c2h)
+                owed_all = sum(m_['size'] for m_ in c2h)
+                if k == 'check':
+                    rate, dur = op[1], op[2]
+                else:
+                    rate, dur = 1, int(max(1, self.hot.current_capacity - pend - owed_exact + op[1]))
                 ob = Observation('chk', 0, dur, 1, None, rate)
                 vol = rate * dur
                 try:
                     got = buf.check_buffer_capacity(ob)
                 except RuntimeError:
                     got = 'raise'
-                ct = self.cold.observations['transfer']
-                cold_room = self.cold.current_capacity - vol - (ct.total_data_size if ct else 0) >= 0
-                want = 'raise' if self.hcap <= vol else (self.hot.current_capacity - vol >= 0 and cold_room)
-                if got != want:
-                    res.viol('C08', 'buffer_admission_check', 'vol %s hot free %s cold free %s -> %s, expected %s' % (
-                        vol, self.hot.current_capacity, self.cold.current_capacity, got, want))
+                res.probes['admission_query'] += 1
+                hfree, cfree = self.hot.current_capacity, self.cold.current_capacity
+                if got is True and (hfree - pend - owed_exact - vol < -EPS or cfree - vol < -EPS):
+                    # C08: an observation begins only if both buffers have room for its whole volume
+                    res.viol('C08', 'admitted_without_room', 'volume %s admitted with hot free %s (of which %s owed to ingests in '
+                             'flight, %s to cold->hot moves in flight), cold free %s' % (vol, hfree, pend, owed_exact, cfree))
+                idle = not pend and not self.inflight() and hfree == self.hcap and cfree == self.ccap
+                if got is not True and idle and vol < self.hcap and vol <= self.ccap:
+                    res.viol('C08', 'refused_although_idle', 'volume %s refused (%s) by an empty, idle buffer (%s/%s)' % (
+                        vol, got, self.hcap, self.ccap))
+                if self.snapshot() != before:
+                    res.viol('C08', 'admission_query_changed_state', '%s -> %s' % (before, self.snapshot()))
             elif k in ('h2c', 'c2h'):
                 # sequential moves are fully modelled; a move started while another is in flight
                 # is only checked for global conservation (the tiers share one transfer slot)
@@ -710,7 +732,8 @@ class BufferMachine(object):
                     # ... or to another cold->hot move that is still in flight (conservatively: its whole size)
                     owed += sum(m_.get('size') or 0 for r_, m_ in self.moves.items()
                                 if not r_.proc.triggered and m_['dir'] == 'c2h')
-                    if self.hot.current_capacity - owed - size < 0:
+                    if self.hot.has_capacity_for(size) and self.hot.current_capacity - owed - size < 0:
+                        # (a move the hot tier has no room for at all is *not* skipped: it must be refused)
                         res.probes['move_skipped_space_owed'] += 1
                         self.in_op = False
                         return
